@@ -119,6 +119,7 @@ def gen_trees(n):
         yield ("break",)
         yield ("continue",)
         yield ("expr",)
+        yield ("ret",)
         yield ("block",)
         return
     # unary wrappers
@@ -142,6 +143,8 @@ def render(t):
         return "continue;"
     if k == "expr":
         return "x = x + 1;"
+    if k == "ret":
+        return "return x;"          # statements after it are unreachable, and checked like any other
     if k == "block":
         return "{ " + " ".join(render(s) for s in t[1:]) + " }"
     if k == "if":
